@@ -22,6 +22,8 @@ import (
 	"strconv"
 	"strings"
 	"sync"
+	"sync/atomic"
+	"time"
 
 	"github.com/makiuchi-d/gozxing"
 	"github.com/makiuchi-d/gozxing/aztec"
@@ -216,7 +218,7 @@ func c11GoDecode(g [][]bool, compact bool, dw, layers int) (out string, text str
 
 // the same on a given (possibly long-lived) Decoder value
 func c11GoDecodeWith(dec *decoder.Decoder, g [][]bool, compact bool, dw, layers int) (out string, text string, ok bool) {
-	out = Safe(func() string {
+	out = SafeTC11(func() string {
 		dr := detector.NewAztecDetectorResult(c11BitMatrix(g), nil, compact, dw, layers)
 		res, err := dec.Decode(dr)
 		if err != nil {
@@ -265,11 +267,25 @@ func c11GoReadWith(rd *aztec.AztecReader, img *image.Gray, global bool) (out str
 	return
 }
 
-func SafeTC11(f func() string) string { return Safe(f) }
+// watchdog around every call into the real decoder / reader (C06: returns in bounded time).  A call that does
+// not return is reported as TIMEOUT; its goroutine cannot be stopped, so after a few of them the remaining
+// calls are answered TIMEOUT without being started (the verdict is already a violation).
+var c11Timeouts int32
+
+func SafeTC11(f func() string) string {
+	if atomic.LoadInt32(&c11Timeouts) >= 8 {
+		return "TIMEOUT"
+	}
+	out := SafeT(20*time.Second, f)
+	if out == "TIMEOUT" {
+		atomic.AddInt32(&c11Timeouts, 1)
+	}
+	return out
+}
 
 // detector only: parameters and sampled grid
 func c11GoDetect(img *image.Gray) (desc string, bits []string) {
-	desc = Safe(func() string {
+	desc = SafeTC11(func() string {
 		bmp, err := gozxing.NewBinaryBitmapFromImage(img)
 		if err != nil {
 			return "ERR:bitmap"
@@ -298,7 +314,7 @@ func c11GoDetect(img *image.Gray) (desc string, bits []string) {
 
 // the library's Reed-Solomon ENCODER over the field of codeword size w: the n check words of `words`
 func c11GoRSParity(w int, words []int, n int) string {
-	return Safe(func() string {
+	return SafeTC11(func() string {
 		var f *reedsolomon.GenericGF
 		switch w {
 		case 4:
